@@ -178,3 +178,6 @@ PLANS["C05"]["jobs"] = multi(PLANS["C05"]["jobs"], uniproc_jobs("atomic", 1500, 
 PLANS["C03"]["jobs"] = multi(PLANS["C03"]["jobs"], uniproc_jobs("linzmap", 500, 10000))
 PLANS["C04"]["jobs"] = multi(PLANS["C04"]["jobs"], uniproc_jobs("linzmap", 500, 10000))
 PLANS["C02"]["jobs"] = multi(PLANS["C02"]["jobs"], uniproc_jobs("linzcache", 400, 8000))
+
+# C13: shrink requests racing each other (a request that arrives while a shrink runs, an abandoned shrink) must not strand anybody
+PLANS["C13"]["jobs"] = multi(PLANS["C13"]["jobs"], simple("sizeq", (240, 0), (10000, 0), stripes_q=8))
